@@ -23,7 +23,7 @@ HIST = hprop.HistoryProperty(
     nontrivial=lambda f: {"charged", "went_out_of_service"} <= f,
     rule="", assumptions=[],
     quick=(8, 60, 40), thorough=(8, 1500, 70),
-    instr_bias={"kinds": [2, 2, 3, 3, 4, 4, 1, 1, 5, 8, 8, 0, 0, 6, 7]},
+    instr_bias={"throttle": True, "kinds": [2, 2, 3, 3, 4, 4, 1, 1, 5, 8, 8, 0, 0, 6, 7]},
 )
 RULE = ("(a) component: generated BEV definitions (capacity 2-200 kWh, idle rate, positive consumption table, positive charge curve with "
         "sub-step 1-120 s, taper cut-off) and ICE definitions (tank, idle rate, mpg), chargers 0.5-350 kW and 0.01-0.5 gal/s incl. wrong "
